@@ -162,7 +162,9 @@ SRepeat ==
           Bn("and", Bn("!=", r, Fld(VarR("@A"), "s")), Bn("=", Call("abs", r), NumA("1")))}
          : r \in {Own("s"), Own("n"), Own("b"), Fld(Own("m"), "t"), Fld(VarR("@A"), "s"), Fld(VarR("@A"), "n"),
                   Fld(Idx(Own("ms"), Own("k")), "t"), Idx(Own("xs"), NumA("0"))}}
-SBound == { Qn("forall", "j", Own("ms"), Bn(">", Fld(VarR("@j"), "n"), NumA("0"))),
+SBound == { Qn("forall", "j", Fld(Idx(Own("ms"), Idx(Own("fx"), NumA("3"))), "deep"), Bn(">", VarR("@j"), NumA("0"))),
+            Qn("forall", "j", Idx(Own("xs"), Own("nope")), Bn(">", VarR("@j"), NumA("0"))),
+            Qn("exists", "j", Fld(VarR("@A"), "xs"), Bn(">", Idx(Own("xs"), Idx(Own("fx"), NumA("5"))), VarR("@j"))), Qn("forall", "j", Own("ms"), Bn(">", Fld(VarR("@j"), "n"), NumA("0"))),
             Qn("forall", "j", Own("ms"), Bn(">", Fld(VarR("@j"), "nope"), NumA("0"))),
             Qn("exists", "j", Own("mf"), Bn(">", Fld(VarR("@j"), "t"), NumA("0"))),
             Qn("exists", "j", Fld(VarR("@A"), "ms"), Bn("=", Fld(Fld(VarR("@j"), "deep"), "z"), Own("n"))),
